@@ -56,7 +56,19 @@ func runFlow(c *Ctx) {
 				if !c.Mine(idx) {
 					continue
 				}
-				oneFlow(c, d, vec, p)
+				oneFlow(c, d, vec, p, 0)
+				if d <= 2 && p == 0 {
+					// the kind of value a panicking hook raises is irrelevant: it is re-raised unchanged
+					hasPanic := false
+					for _, b := range vec {
+						hasPanic = hasPanic || b == ref.HPanics
+					}
+					if hasPanic {
+						for pk := 1; pk < len(panicKinds); pk++ {
+							oneFlow(c, d, vec, p, pk)
+						}
+					}
+				}
 			}
 		}
 	}
@@ -67,11 +79,41 @@ func replayFlow(c *Ctx, cs Case) {
 	for _, x := range cs["vec"].([]interface{}) {
 		vec = append(vec, int(x.(float64)))
 	}
-	oneFlow(c, cInt(cs, "depth"), vec, cInt(cs, "policy"))
+	oneFlow(c, cInt(cs, "depth"), vec, cInt(cs, "policy"), cInt(cs, "panic_kind"))
 }
 
-func oneFlow(c *Ctx, d int, vec []int, pol int) {
-	if !c.Begin("flow", fmt.Sprint(d), fmt.Sprint(vec), fmt.Sprint(pol)) {
+// codedErr is a user error type that happens to expose the methods of several exit-code conventions; a hook panicking
+// with it is an ordinary panic, not a cli.Exit.
+type codedErr struct{ name string }
+
+func (e *codedErr) Error() string {
+	if e == nil {
+		return "coded-nil"
+	}
+	return "coded-" + e.name
+}
+func (e *codedErr) ExitCode() int { return 3 }
+func (e *codedErr) ExitStatus() int { return 3 }
+func (e *codedErr) Code() int { return 3 }
+
+var panicKinds = []string{"error value", "user error type with ExitCode()/ExitStatus()/Code() methods", "int", "string", "nil-pointer of a user error type"}
+
+func panicValue(kind int, i int, name string) interface{} {
+	switch kind {
+	case 1:
+		return &codedErr{name}
+	case 2:
+		return 10 + i
+	case 3:
+		return "boom-" + name
+	case 4:
+		return (*codedErr)(nil)
+	}
+	return errors.New("boom-" + name)
+}
+
+func oneFlow(c *Ctx, d int, vec []int, pol int, pk int) {
+	if !c.Begin("flow", fmt.Sprint(d), fmt.Sprint(vec), fmt.Sprint(pol), fmt.Sprint(pk)) {
 		return
 	}
 	// hook i: 0..d = Before of level i; d+1 = Action; d+2+j = After of level d-j
@@ -91,7 +133,7 @@ func oneFlow(c *Ctx, d int, vec []int, pol int) {
 		case ref.HReturns:
 			return func() { log = append(log, names[i]) }
 		case ref.HPanics:
-			vals[i] = errors.New("boom-" + names[i])
+			vals[i] = panicValue(pk, i, names[i])
 			return func() { log = append(log, names[i]); panic(vals[i]) }
 		case ref.HFaults:
 			return func() {
@@ -131,8 +173,8 @@ func oneFlow(c *Ctx, d int, vec []int, pol int) {
 		c.Count("second_runs_on_same_instance", 1)
 		if strings.Join(log, " ") != first || o2.Returned != o.Returned || o2.Panicked != o.Panicked || fmt.Sprint(o2.Exits) != fmt.Sprint(o.Exits) {
 			if c.On("C05") {
-				c.Violation("C05", fmt.Sprintf("flow depth=%d vec=%s policy=%d (second Run on the same instance)", d, describeVec(names, vec), pol),
-					Case{"depth": d, "vec": append([]int{}, vec...), "policy": pol}, fmt.Sprintf("as the first run: calls=[%s] returned=%v panicked=%v exits=%v", first, o.Returned, o.Panicked, o.Exits),
+				c.Violation("C05", fmt.Sprintf("flow depth=%d vec=%s policy=%d%s (second Run on the same instance)", d, describeVec(names, vec), pol, pkText(pk)),
+					Case{"depth": d, "vec": append([]int{}, vec...), "policy": pol, "panic_kind": pk}, fmt.Sprintf("as the first run: calls=[%s] returned=%v panicked=%v exits=%v", first, o.Returned, o.Panicked, o.Exits),
 					fmt.Sprintf("calls=[%s] returned=%v panicked=%v exits=%v", strings.Join(log, " "), o2.Returned, o2.Panicked, o2.Exits))
 			}
 		}
@@ -175,15 +217,22 @@ func oneFlow(c *Ctx, d int, vec []int, pol int) {
 		}
 	}
 	obsEnd = fmt.Sprintf("returned=%v err=%v exits=%v panicked=%v panicval=%v", o.Returned, o.Err, o.Exits, o.Panicked, o.PanicVal)
-	cs := Case{"depth": d, "vec": append([]int{}, vec...), "policy": pol, "hooks": names}
+	cs := Case{"depth": d, "vec": append([]int{}, vec...), "policy": pol, "hooks": names, "panic_kind": pk, "panic_value": panicKinds[pk]}
 	if c.WantSample(fmt.Sprintf("depth%d", d)) && fails > 0 {
 		c.Sample(fmt.Sprintf("depth%d", d), Case{"depth": d, "vector": describeVec(names, vec), "policy": pol, "observed_calls": strings.Join(log, " "), "observed_end": obsEnd})
 	}
 	if len(bad) > 0 && c.On("C05") {
-		c.Violation("C05", fmt.Sprintf("flow depth=%d vec=%s policy=%d", d, describeVec(names, vec), pol), cs,
+		c.Violation("C05", fmt.Sprintf("flow depth=%d vec=%s policy=%d%s", d, describeVec(names, vec), pol, pkText(pk)), cs,
 			fmt.Sprintf("calls=[%s] end=%s by=%s", strings.Join(exp.Log, " "), exp.EndName(), hookName(names, exp.By)),
 			fmt.Sprintf("calls=[%s] %s (mismatch: %s)", strings.Join(log, " "), obsEnd, strings.Join(bad, ",")))
 	}
+}
+
+func pkText(pk int) string {
+	if pk == 0 {
+		return ""
+	}
+	return " panic-value=" + panicKinds[pk]
 }
 
 func hookName(names []string, i int) string {
